@@ -423,15 +423,39 @@ var rR15m = RuleRef{Name: "R15m", Doc: "the four *Multi lock helpers (directly o
 					}
 					sites++
 					var from *ssa.Function
-					backslice(ia.Index, func(v ssa.Value) bool {
-						if cl, isC := v.(*ssa.Call); isC {
-							if cf := callee(cl); cf != nil && firstParty(cf) {
-								from = cf
+					var origin func(v ssa.Value, of *ssa.Function, d int)
+					origin = func(v ssa.Value, of *ssa.Function, d int) {
+						backslice(v, func(v ssa.Value) bool {
+							if cl, isC := v.(*ssa.Call); isC {
+								if cf := callee(cl); cf != nil && firstParty(cf) {
+									from = cf
+								}
+								return false
 							}
-							return false
-						}
-						return true
-					})
+							// an accessor that is handed the position (l.at(pos)): where its callers in scope got it from
+							if prm, isP := v.(*ssa.Parameter); isP && d < 2 {
+								for pi, fp := range of.Params {
+									if fp != prm {
+										continue
+									}
+									for g := range scope {
+										if isMethodOf(g, c.Facts.Locks, "Lock", "RLock", "UnLock", "RUnLock", "GetKeyPos") {
+											continue
+										}
+										for _, gb := range g.Blocks {
+											for _, gi := range gb.Instrs {
+												if ci, ok := gi.(ssa.CallInstruction); ok && callee(ci) == of && pi < len(ci.Common().Args) {
+													origin(ci.Common().Args[pi], g, d+1)
+												}
+											}
+										}
+									}
+								}
+							}
+							return true
+						})
+					}
+					origin(ia.Index, f, 0)
 					if from == nil {
 						bad = "a stripe index in " + fnName(f) + " does not come from a position function"
 					} else {
